@@ -80,6 +80,8 @@ type unit struct {
 
 type ex struct {
 	fset    *token.FileSet
+	muOwners   map[string]bool            // struct types with a field named mu
+	identTypes map[string]map[string]bool // receiver / parameter name -> its declared types
 	units   []*unit
 	byName  map[string]*unit
 	progs   map[string]string
@@ -99,8 +101,7 @@ func main() {
 	fset := token.NewFileSet()
 	files, _ := filepath.Glob(filepath.Join(*repo, "rpc", "*.go"))
 	sort.Strings(files)
-	x := &ex{fset: fset, byName: map[string]*unit{}, progs: map[string]string{}, rel: map[string]bool{}}
-	muFields := 0
+	x := &ex{fset: fset, byName: map[string]*unit{}, progs: map[string]string{}, rel: map[string]bool{}, muOwners: map[string]bool{}, identTypes: map[string]map[string]bool{}}
 	for _, f := range files {
 		switch filepath.Base(f) {
 		case "rpc.go", "answer.go", "question.go", "import.go", "export.go":
@@ -112,13 +113,50 @@ func main() {
 			fmt.Fprintln(os.Stderr, err)
 			os.Exit(1)
 		}
+		// which struct types have a mutex field named mu (the Conn's is the one the property is about), and which
+		// identifiers name values of those types (receivers and parameters)
 		ast.Inspect(af, func(n ast.Node) bool {
-			if st, ok := n.(*ast.StructType); ok {
+			ts, ok := n.(*ast.TypeSpec)
+			if !ok {
+				return true
+			}
+			if st, ok := ts.Type.(*ast.StructType); ok {
 				for _, fl := range st.Fields.List {
 					for _, nm := range fl.Names {
 						if nm.Name == "mu" {
-							muFields++
+							x.muOwners[ts.Name.Name] = true
 						}
+					}
+				}
+			}
+			return true
+		})
+		ast.Inspect(af, func(n ast.Node) bool {
+			var lists []*ast.FieldList
+			switch v := n.(type) {
+			case *ast.FuncDecl:
+				lists = append(lists, v.Recv, v.Type.Params)
+			case *ast.FuncLit:
+				lists = append(lists, v.Type.Params)
+			}
+			for _, l := range lists {
+				if l == nil {
+					continue
+				}
+				for _, fl := range l.List {
+					t := fl.Type
+					if s, ok := t.(*ast.StarExpr); ok {
+						t = s.X
+					}
+					id, ok := t.(*ast.Ident)
+					if !ok {
+						continue
+					}
+					for _, nm := range fl.Names {
+						if x.identTypes[nm.Name] == nil {
+							x.identTypes[nm.Name] = map[string]bool{}
+						}
+						x.identTypes[nm.Name][id.Name] = true
 					}
 				}
 			}
@@ -146,8 +184,8 @@ func main() {
 			x.byName[name] = u
 		}
 	}
-	if muFields != 1 {
-		fmt.Fprintf(os.Stderr, "lockflow: expected exactly one struct field named mu in package rpc, found %d\n", muFields)
+	if !x.muOwners["Conn"] {
+		fmt.Fprintln(os.Stderr, "lockflow: struct Conn has no field named mu")
 		os.Exit(1)
 	}
 	// which units are lock-relevant (fixpoint over calls)
@@ -248,17 +286,51 @@ func (x *ex) fail(n ast.Node, msg string) {
 	x.errs = append(x.errs, fmt.Sprintf("%s: %s: %s", x.fset.Position(n.Pos()), x.cur.name, msg))
 }
 
+// whoseMu: the owner of `<e>.mu`: "Conn", "other" (a struct with a mutex of its own) or "" (cannot tell).
+// <x>.c is a Conn (the back pointer every table entry has); an identifier is what receivers and parameters of
+// that name are declared as throughout the package.
+func (x *ex) whoseMu(e ast.Expr) string {
+	switch v := e.(type) {
+	case *ast.SelectorExpr:
+		if v.Sel.Name == "c" {
+			return "Conn"
+		}
+	case *ast.Ident:
+		conn, other := false, false
+		for ty := range x.identTypes[v.Name] {
+			if ty == "Conn" {
+				conn = true
+			} else if x.muOwners[ty] {
+				other = true
+			}
+		}
+		switch {
+		case conn && !other:
+			return "Conn"
+		case other && !conn:
+			return "other"
+		}
+	}
+	return ""
+}
+
 // classify a call: kind ("lockMu", "unlockMu", "try", "lockSender", "unlockSender", "muFree", "sender", "pkg") and target
 func (x *ex) classify(ce *ast.CallExpr) (string, string) {
 	switch f := ce.Fun.(type) {
 	case *ast.SelectorExpr:
 		name := f.Sel.Name
-		if in, ok := f.X.(*ast.SelectorExpr); ok && in.Sel.Name == "mu" {
-			switch name {
-			case "Lock":
-				return "lockMu", ""
-			case "Unlock":
+		if in, ok := f.X.(*ast.SelectorExpr); ok && in.Sel.Name == "mu" && (name == "Lock" || name == "Unlock") {
+			switch x.whoseMu(in.X) {
+			case "Conn":
+				if name == "Lock" {
+					return "lockMu", ""
+				}
 				return "unlockMu", ""
+			case "other":
+				return "", "" // another struct's own mutex: not one of the Conn's two locks
+			default:
+				fmt.Fprintf(os.Stderr, "lockflow: %s: cannot tell whose mu this is\n", x.fset.Position(ce.Pos()))
+				os.Exit(1)
 			}
 		}
 		switch name {
